@@ -557,7 +557,7 @@ func (p *Parser) parseBuffer(buf []byte, last bool) error {
 	}
 	if last {
 		if 0 < len(p.starts) || len(p.mode) == 256 { // valid finishing maps are one byte longer
-			return p.newError(off, "incomplete JSON")
+			return p.newError(len(buf), "incomplete JSON")
 		}
 		if p.mode[256] == 'n' {
 			p.add(p.num.AsNode())
